@@ -502,13 +502,24 @@ def _is_allowed_int32_failure(exc, ops) -> bool:
     return "'pow'" in str(exc) and any(op.get("dtype") == "int32" for op in ops.values())
 
 
+def in_f32_normal(x) -> bool:
+    """Representable as a normal float32 with a little head room."""
+    ax = abs(x)
+    return ax == 0 or (mp.mpf("1e-36") <= ax <= mp.mpf("1e36"))
+
+
 def _f32_inputs_in_range(ops) -> bool:
-    for op in ops.values():
+    """Single-precision cases are value-checked only if every stored operand is a normal float32 and
+    the operands the formulas square (times, lengths, wavelengths; not energies or angles) have
+    squares in range as well.  (An earlier version also required energies to lie in [1e-18, 1e18];
+    that skipped every energy given in J and hid a seeded float32 underflow, seeded/C07-s2.)"""
+    for name, op in ops.items():
         if "dtype" not in op:
             continue
+        squared = "energy" not in name and "theta" not in name
         for v in op["values"]:
             x = mp.mpf(v)
-            if not in_f32_range(x) or not in_f32_range(x * x):
+            if not in_f32_normal(x) or (squared and not in_f32_range(x)):
                 return False
     return True
 
@@ -593,7 +604,7 @@ def check_point(case):
             inter = [ref] + [x / factor for x in r.get("aux", [])] \
                 + [x / factor for x in r.get("aux_energy", [])] \
                 + [x / tfac for x in r.get("aux_time", [])]
-            if not all(in_f32_range(x) for x in inter):
+            if not all(in_f32_normal(x) for x in inter):
                 labs.append("f32-result-range-skip")
                 continue
         if not np.isfinite(gv):
